@@ -269,7 +269,7 @@ fn run_order_template<const N: usize>(ef: [Ent; N]) {
     core::mem::forget(obj);
 }
 
-// @harness id=c07_order_plain_3 props=C07,C05 tier=quick cap=1500
+// @harness id=c07_order_plain_3 props=C07,C05 tier=thorough cap=5400 mem=40
 // @desc get_fields_order / has_visible_field on every 3-layer object in which one name is present in all layers with arbitrary visibilities: the name is listed once with the resolved visibility (outermost non-default wins, all-default is default) and all views agree
 // @bound template [f v0, f v1, f v2] with the three visibilities symbolic (27 combinations in one query)
 // @funcs ObjectData::get_fields_order, ObjectData::get_visible_fields_order, ObjectData::has_visible_field
@@ -283,7 +283,7 @@ fn c07_order_plain_3() {
 }
 }
 
-// @harness id=c07_order_removed_4 props=C07,C05 tier=quick cap=1500
+// @harness id=c07_order_removed_4 props=C07,C05 tier=thorough cap=5400 mem=40
 // @desc get_fields_order / has_visible_field on every 4-layer object of the shape [f v0, Removed(d), f v1, f v2] with d in {1,2} and arbitrary visibilities (the shape of `objectRemoveKey(X, "f") + { f: ... }` and of `objectRemoveKey(X + Y, "f") + {...}`): layers hidden by the Removed marker do not influence the visibility of f, layers beyond it do, and manifestation (get_fields_order) agrees with std.objectHas (has_visible_field)
 // @bound template of 4 layers, 3 symbolic visibilities, symbolic marker depth in {1,2}
 // @funcs ObjectData::get_fields_order, ObjectData::get_visible_fields_order, ObjectData::has_visible_field
@@ -300,7 +300,7 @@ fn c07_order_removed_4() {
 }
 }
 
-// @harness id=c07_order_removed_top props=C07,C05 tier=quick cap=1500
+// @harness id=c07_order_removed_top props=C07,C05 tier=thorough cap=5400 mem=40
 // @desc get_fields_order on [Removed(2), f v1, f v2] (std.objectRemoveKey of a 2-layer object) and on [Removed(1), f v1, f v2]: the field is listed only if a layer beyond the removed range holds it
 // @bound two concrete marker depths, symbolic visibilities
 // @funcs ObjectData::get_fields_order
@@ -320,7 +320,7 @@ fn any_plain_ent() -> Ent {
     Ent { kind, depth: 0 }
 }
 
-// @harness id=c07_order_two_names props=C07,C05 tier=quick cap=1500
+// @harness id=c07_order_two_names props=C07,C05 tier=thorough cap=5400 mem=40
 // @desc get_fields_order on every 2-layer object where g is defined in both layers and f only in the super layer (layers store g before f), with arbitrary visibilities: both names are listed once each, in sorted order (f before g), with the resolved visibility
 // @bound 2 layers, 2 names, symbolic visibilities
 // @funcs ObjectData::get_fields_order, ObjectData::get_visible_fields_order
@@ -365,15 +365,155 @@ c07_lookup_harness!(c07_lookup_3, 3);
 c07_lookup_harness!(c07_lookup_4, 4);
 
 
-// @harness id=c07_order_probe1 props=C07 tier=thorough cap=900
-// @desc probe: get_fields_order on a one-layer object with one present field
-// @bound 1 layer
-// @funcs ObjectData::get_fields_order
+
+fn entry_of<'a, 'p>(layer: &'a ObjectLayer<'p>, name: InternedStr<'p>) -> Ent {
+    match layer.fields.get(&name) {
+        None => ABSENT,
+        Some(ObjectField::Removed(d)) => Ent { kind: 4, depth: *d },
+        Some(ObjectField::Normal(data)) => Ent {
+            kind: match data.visibility {
+                ast::Visibility::Default => 1,
+                ast::Visibility::Hidden => 2,
+                ast::Visibility::ForceVisible => 3,
+            },
+            depth: 0,
+        },
+    }
+}
+
+fn same_ent(a: Ent, b: Ent) -> bool {
+    a.kind == b.kind && (a.kind != 4 || a.depth == b.depth)
+}
+
+fn two_layer_object<'p>(f: InternedStr<'p>, g: InternedStr<'p>) -> (ObjectData<'p>, [Ent; 2]) {
+    // the field is present in the self layer with any visibility (concrete presence keeps the enum
+    // variants of the stored `ObjectField`s constant, which is what keeps CBMC's memory in bounds:
+    // fully symbolic entries needed 16-20 GB here); the super layer holds it or not
+    let ef = [any_present(), if kani::any() { any_present() } else { ABSENT }];
+    let eg = [ABSENT; 2];
+    (mk_object(f, g, &ef, &eg), ef)
+}
+
+// @harness id=c07_extend_layers props=C07 tier=thorough cap=5400 mem=40
+// @desc Program::extend_object(X, Y) (the + operator on objects) for 2-layer X and Y: the result's layer list is exactly Y.self, Y.super, X.self, X.super and every layer's entry for the name (visibility or Removed(depth)) is the source layer's. Associativity of + and the two-sided identity of {} on the layer model are corollaries: layer lists concatenate, and every observation (c07_lookup_*) is a function of the layer list only
+// @bound X and Y of 2 layers each; the name is present in each self layer with any visibility and optionally in the super layer
+// @funcs Program::extend_object, extend_object_clone_layer, extend_object_clone_field
 eval_stubs! {
 #[kani::proof]
 #[kani::unwind(6)]
-fn c07_order_probe1() {
-    let ef = [any_present()];
-    run_order_template::<1>(ef);
+fn c07_extend_layers() {
+    let arena = Arena::new();
+    let mut program = bare_program(&arena);
+    let f = program.str_interner.intern(&arena, "f");
+    let g = program.str_interner.intern(&arena, "g");
+    let (x, ex) = two_layer_object(f, g);
+    let (y, ey) = two_layer_object(f, g);
+    let r = program.extend_object(&x, &y).view();
+    assert!(r.super_layers.len() == 3, "2 + 2 layers");
+    assert!(same_ent(entry_of(&r.self_layer, f), ey[0]), "layer 0 = Y.self");
+    assert!(same_ent(entry_of(&r.super_layers[0], f), ey[1]), "layer 1 = Y.super");
+    assert!(same_ent(entry_of(&r.super_layers[1], f), ex[0]), "layer 2 = X.self");
+    assert!(same_ent(entry_of(&r.super_layers[2], f), ex[1]), "layer 3 = X.super");
+    assert!(entry_of(&r.self_layer, g).kind == 0, "no other name appears");
+    assert!(!r.asserts_checked.get(), "object asserts of the combined object are still to be checked");
+    kani::cover!(ey[0].kind == 1 && ex[0].kind == 2 && ex[1].kind == 0, "Y overrides a hidden field of X with default visibility");
+    core::mem::forget((x, y, r));
+    core::mem::forget(program);
+}
+}
+
+// @harness id=c07_remove_key props=C07 tier=thorough cap=5400 mem=40
+// @desc std.objectRemoveKey at its Rust entry point on an arbitrary 2-layer object: afterwards the named field does not exist from the top layer (has_field(0), has_visible_field), whatever its previous visibility (hidden fields included), the original layers are kept unchanged below a Removed(2) marker
+// @bound objects of 2 layers; the name is present in the self layer with any visibility and optionally in the super layer
+// @funcs Evaluator::do_std_object_remove_key, Program::object_with_field_removed
+eval_stubs! {
+#[kani::proof]
+#[kani::unwind(6)]
+fn c07_remove_key() {
+    let arena = Arena::new();
+    let mut program = bare_program(&arena);
+    let f = program.str_interner.intern(&arena, "f");
+    let g = program.str_interner.intern(&arena, "g");
+    let (o, eo) = two_layer_object(f, g);
+    let existed = ref_find(&eo, 2, 0).is_some();
+    let o = GcView::kani_unmanaged(o);
+    let keep = o.clone();
+    let mut ev = bare_evaluator(&mut program);
+    ev.value_stack.push(ValueData::Object(Gc::from(&o)));
+    ev.value_stack.push(ValueData::String("f".into()));
+    let res = ev.do_std_object_remove_key();
+    assert!(res.is_ok(), "removing a key from an object never fails");
+    match ev.value_stack.last() {
+        Some(ValueData::Object(r)) => {
+            let r = r.view();
+            assert!(!r.has_field(0, f), "the removed field does not exist any more");
+            assert!(!r.has_visible_field(f), "nor is it visible");
+            assert!(r.super_layers.len() == 2, "the original layers are kept below the marker");
+            assert!(same_ent(entry_of(&r.self_layer, f), removed(2)), "marker covers exactly the original layers");
+            assert!(same_ent(entry_of(&r.super_layers[0], f), eo[0]) && same_ent(entry_of(&r.super_layers[1], f), eo[1]), "original entries unchanged");
+            kani::cover!(existed && eo[0].kind == 2, "a hidden field is removed");
+            kani::cover!(existed && eo[1].kind == 3, "a field forced visible in the super layer is removed");
+            core::mem::forget(r);
+        }
+        _ => assert!(false, "an object is returned"),
+    }
+    core::mem::forget(res);
+    core::mem::forget(ev);
+    core::mem::forget(program);
+    core::mem::forget((o, keep));
+}
+}
+
+// @harness id=c07_object_has_ex props=C07 tier=thorough cap=5400 mem=40
+// @desc std.objectHasEx at its Rust entry point on an arbitrary 2-layer object and both values of inc_hidden: objectHasAll = the field exists (first visible layer), objectHas = it exists and its resolved visibility is not hidden
+// @bound objects of 2 layers; the name is present in the self layer with any visibility and optionally in the super layer
+// @funcs Evaluator::do_std_object_has_ex, ObjectData::has_field, ObjectData::has_visible_field
+eval_stubs! {
+#[kani::proof]
+#[kani::unwind(6)]
+fn c07_object_has_ex() {
+    let arena = Arena::new();
+    let mut program = bare_program(&arena);
+    let f = program.str_interner.intern(&arena, "f");
+    let g = program.str_interner.intern(&arena, "g");
+    let (o, eo) = two_layer_object(f, g);
+    let (exists, vis) = ref_visibility(&eo, 2);
+    let o = GcView::kani_unmanaged(o);
+    let keep = o.clone();
+    let inc_hidden: bool = kani::any();
+    let mut ev = bare_evaluator(&mut program);
+    ev.value_stack.push(ValueData::Object(Gc::from(&o)));
+    ev.value_stack.push(ValueData::String("f".into()));
+    ev.value_stack.push(ValueData::Bool(inc_hidden));
+    let res = ev.do_std_object_has_ex();
+    assert!(res.is_ok(), "objectHasEx succeeds on an object, a string and a boolean");
+    let want = if inc_hidden { exists } else { exists && vis != ast::Visibility::Hidden };
+    assert!(matches!(ev.value_stack.last(), Some(ValueData::Bool(b)) if *b == want), "existence / visibility per the layer semantics");
+    kani::cover!(exists && vis == ast::Visibility::Hidden && inc_hidden, "hidden field seen by objectHasAll");
+    kani::cover!(exists && vis == ast::Visibility::Hidden && !inc_hidden, "hidden field not seen by objectHas");
+    core::mem::forget(res);
+    core::mem::forget(ev);
+    core::mem::forget(program);
+    core::mem::forget((o, keep));
+}
+}
+
+// @harness id=c07_must_fail props=C07 tier=quick cap=1500 expect=fail
+// @desc vacuity twin of the layer-model harnesses
+eval_stubs! {
+#[kani::proof]
+#[kani::unwind(6)]
+fn c07_must_fail() {
+    let arena = Arena::new();
+    let mut program = bare_program(&arena);
+    let f = program.str_interner.intern(&arena, "f");
+    let g = program.str_interner.intern(&arena, "g");
+    let (x, _ex) = two_layer_object(f, g);
+    let k: usize = kani::any();
+    kani::assume(k <= 2);
+    let _ = x.find_field(k, f);
+    core::mem::forget(x);
+    core::mem::forget(program);
+    assert!(false, "reachability witness");
 }
 }
